@@ -11,6 +11,7 @@ import (
 	"net/http"
 	"strconv"
 	"strings"
+	"sync"
 	"syscall"
 	"testing"
 	"testing/synctest"
@@ -617,6 +618,32 @@ func (w *clientWorld) doCancel(why string) {
 	w.cancel()
 }
 
+// simDeadlineCtx is a context.Context implementation of the caller's own: done when expire is
+// called, with context.DeadlineExceeded as its error.
+type simDeadlineCtx struct {
+	context.Context
+	mu   sync.Mutex
+	done chan struct{}
+	err  error
+}
+
+func (c *simDeadlineCtx) Done() <-chan struct{} { return c.done }
+
+func (c *simDeadlineCtx) Err() error {
+	c.mu.Lock()
+	defer c.mu.Unlock()
+	return c.err
+}
+
+func (c *simDeadlineCtx) expire() {
+	c.mu.Lock()
+	defer c.mu.Unlock()
+	if c.err == nil {
+		c.err = context.DeadlineExceeded
+		close(c.done)
+	}
+}
+
 // ---------------------------------------------------------------- request body kinds
 
 type plainReader struct{ r *bytes.Reader }
@@ -690,7 +717,15 @@ func runClientWorld(rc *RunCtx) *Outcome {
 			w.sim = verifhook.New(rc.Ch, cfg)
 			verifhook.Install(w.sim)
 			defer verifhook.Install(nil)
-			w.ctx, w.cancel = context.WithCancel(context.Background())
+			if rc.Ch.Chance(1, 4, "context ends with DeadlineExceeded") {
+				// a caller-supplied Context of another kind: it ends with DeadlineExceeded (ended by the same
+				// simulated canceller, so that the instant stays a scheduling decision)
+				dc := &simDeadlineCtx{Context: context.Background(), done: make(chan struct{})}
+				w.ctx, w.cancel = dc, dc.expire
+				o.probe("request context that ends with DeadlineExceeded")
+			} else {
+				w.ctx, w.cancel = context.WithCancel(context.Background())
+			}
 			context.AfterFunc(w.ctx, w.sim.Poke)
 			w.build()
 			res = w.sim.Run()
